@@ -751,6 +751,7 @@ impl Worker {
 
         let mut file = self.active_file.take();
         let mut file_set = ActiveFileSet::empty(&self.metrics, &self.dir);
+        let mut file_set_is_read = false;
 
         if file.is_none() {
             if let Err(err) = self.fs.create_dir_all(Path::new(&self.dir)) {
@@ -784,6 +785,7 @@ impl Worker {
 
                     err
                 });
+            file_set_is_read = true;
 
             if self.reuse_files {
                 if let Some(file_name) = file_set.current_file_name() {
@@ -817,6 +819,26 @@ impl Worker {
         let mut file = if let Some(file) = file {
             file
         } else {
+            // If we're rolling over from a file that was already active then
+            // the set of files hasn't been read yet; retention needs to see it
+            if !file_set_is_read {
+                let _ = file_set
+                    .read(&self.fs, &self.file_prefix, &self.file_ext)
+                    .map_err(|err| {
+                        self.metrics.file_set_read_failed.increment();
+
+                        emit::warn!(
+                            rt: emit::runtime::internal(),
+                            "failed to files in read {path}: {err}",
+                            #[emit::as_debug]
+                            path: &file_set.dir,
+                            err,
+                        );
+
+                        err
+                    });
+            }
+
             // Leave room for the file we're about to create
             file_set.apply_retention(&self.fs, self.max_files.saturating_sub(1));
 
